@@ -161,6 +161,9 @@ type multi struct {
 }
 
 func worker(kind string, data json.RawMessage) any {
+	if kind == "race" {
+		return raceWorker(data)
+	}
 	var c caseData
 	if err := json.Unmarshal(data, &c); err != nil {
 		return multi{Runs: []obs{{HarnessNote: "bad case: " + err.Error()}}}
@@ -1288,6 +1291,8 @@ func drive(d *mon.Driver, replay string) int {
 			}
 		})
 	}
+	// many short cancelled evaluations with senders racing for the slots of a small buffered channel
+	driveRaces(d, par)
 	// secondary monitor: the goroutine-spawning cases once more under the race detector (only its
 	// reports are judged there; the timing of an instrumented binary says nothing about the bounds)
 	if rb := os.Getenv("VERIF_RACE_BIN"); rb != "" {
